@@ -16,15 +16,15 @@ pub struct CState {
     pub latest: Uuid,
     pub snapshot: Option<Snapshot>,
     pub snapshot_data: Option<Seq<u8>>,
-    pub versions: Map<Uuid, GVersion>,   // by version id
-    pub children: Map<Uuid, Uuid>,       // parent id -> version id
+    pub versions: IMap<Uuid, GVersion>,   // by version id
+    pub children: IMap<Uuid, Uuid>,       // parent id -> version id
 }
 
-pub type Db = Map<Uuid, CState>;
+pub type Db = IMap<Uuid, CState>;
 
 pub open spec fn absent() -> CState {
     CState { exists: false, latest: nil_id(), snapshot: None, snapshot_data: None,
-             versions: Map::empty(), children: Map::empty() }
+             versions: IMap::empty(), children: IMap::empty() }
 }
 
 /// the state of client `c` in `db` (an absent key is a client that does not exist)
@@ -69,7 +69,7 @@ pub open spec fn client_rec(c: CState) -> Option<Client> {
 
 pub open spec fn new_client_spec(latest: Uuid) -> CState {
     CState { exists: true, latest: latest, snapshot: None, snapshot_data: None,
-             versions: Map::empty(), children: Map::empty() }
+             versions: IMap::empty(), children: IMap::empty() }
 }
 
 pub open spec fn bump(s: Option<Snapshot>) -> Option<Snapshot> {
